@@ -67,8 +67,21 @@ func raceChild(args []string) {
 	fracSize := fs.Uint64("fracsize", 3000, "")
 	dir := fs.String("dir", "", "")
 	inmem := fs.Bool("inmem", false, "")
+	fs.String("mode", "", "")
 	fs.Parse(args)
 	logger.SetLevel(zap.FatalLevel)
+	mode := fs.Lookup("mode").Value.String()
+	if mode == "rot" || mode == "sealedpool" {
+		var o raceOut
+		if mode == "rot" {
+			o = rotChild(*seed, *dir)
+		} else {
+			o = sealedPoolChild(*seed, *dir)
+		}
+		b, _ := json.Marshal(o)
+		fmt.Println("RESULT " + string(b))
+		return
+	}
 	if *inmem {
 		inmemChild(*seed, *dir, *bulksPer)
 		return
@@ -494,11 +507,15 @@ func runRace(rep *vh.Report, o vh.Opts, replayLine string) {
 	type cfg struct {
 		seed, writers, searchers, bulks, fracsize int
 		inmem                                     bool
+		mode                                      string
 	}
 	var cfgs []cfg
 	if replayLine != "" {
 		var c cfg
-		if strings.HasPrefix(replayLine, "race inmem ") {
+		if strings.HasPrefix(replayLine, "race rot ") || strings.HasPrefix(replayLine, "race sealedpool ") {
+			c.mode = strings.Fields(replayLine)[1]
+			fmt.Sscanf(strings.Fields(replayLine)[2], "seed=%d", &c.seed)
+		} else if strings.HasPrefix(replayLine, "race inmem ") {
 			fmt.Sscanf(replayLine, "race inmem seed=%d bulks=%d", &c.seed, &c.bulks)
 			c.inmem = true
 		} else {
@@ -510,6 +527,9 @@ func runRace(rep *vh.Report, o vh.Opts, replayLine string) {
 		for i := 0; i < n; i++ {
 			cfgs = append(cfgs, cfg{seed: int(o.Seed)*100 + i, writers: 2 + i%4, searchers: 2 + (i/2)%4, bulks: o.Pick(150, 400), fracsize: []int{600, 1500, 4000}[i%3]})
 		}
+		for i := 0; i < o.Pick(1, 4); i++ { // directed: append across a rotation; sealed providers after a failed search
+			cfgs = append(cfgs, cfg{seed: int(o.Seed)*100 + i, mode: "rot"}, cfg{seed: int(o.Seed)*100 + i, mode: "sealedpool"})
+		}
 		for i := 0; i < o.Pick(1, 3); i++ { // the single-mode write path (in-memory store client, reused metas buffer)
 			cfgs = append(cfgs, cfg{seed: int(o.Seed)*100 + i, bulks: o.Pick(60, 200), inmem: true})
 		}
@@ -520,10 +540,13 @@ func runRace(rep *vh.Report, o vh.Opts, replayLine string) {
 		if c.inmem {
 			line = fmt.Sprintf("race inmem seed=%d bulks=%d", c.seed, c.bulks)
 		}
+		if c.mode != "" {
+			line = fmt.Sprintf("race %s seed=%d", c.mode, c.seed)
+		}
 		dir, _ := os.MkdirTemp("", "c07-race-")
 		ctx, cancel := context.WithTimeout(context.Background(), 240*time.Second)
 		ch := exec.CommandContext(ctx, bin, "race-child", "-seed", fmt.Sprint(c.seed), "-writers", fmt.Sprint(c.writers), "-searchers", fmt.Sprint(c.searchers),
-			"-bulks", fmt.Sprint(c.bulks), "-fracsize", fmt.Sprint(c.fracsize), "-dir", dir, fmt.Sprintf("-inmem=%v", c.inmem))
+			"-bulks", fmt.Sprint(c.bulks), "-fracsize", fmt.Sprint(c.fracsize), "-dir", dir, fmt.Sprintf("-inmem=%v", c.inmem), "-mode", c.mode)
 		ch.Env = append(os.Environ(), "GORACE=halt_on_error=0 exitcode=66")
 		var stderr strings.Builder
 		ch.Stderr = &stderr
@@ -539,7 +562,9 @@ func runRace(rep *vh.Report, o vh.Opts, replayLine string) {
 				gotResult = json.Unmarshal([]byte(strings.TrimPrefix(sc.Text(), "RESULT ")), &res) == nil
 			}
 		}
-		if c.inmem {
+		if c.mode != "" {
+			orc.Case(line, res.Searches > 0, "directed="+c.mode)
+		} else if c.inmem {
 			orc.Case(line, res.Bulks > 1, "path=in-memory-client")
 		} else {
 			orc.Case(line, res.Overlaps > 0, fmt.Sprintf("writers=%d", c.writers), fmt.Sprintf("searchers=%d", c.searchers))
